@@ -278,25 +278,28 @@ class FacebookPhoto(FacebookParsedItem):
 
     @property
     def url(self):
+        # NOTE: those urls must be parsed back to the same photo
+        album = "&set=a.%s" % self.album_id if self.album_id else ""
+
         if self.group_id:
             return urljoin(
                 BASE_FACEBOOK_URL,
-                "/photo.php?fbid=%s&set=g.%s" % (self.id, self.group_id),
+                "/photo.php?fbid=%s&set=g.%s%s" % (self.id, self.group_id, album),
             )
 
         if self.parent_id:
             return urljoin(
                 BASE_FACEBOOK_URL,
-                "/%s/a.%s/%s" % (self.parent_id, self.album_id, self.id),
+                "/%s/photos/a.%s/%s" % (self.parent_id, self.album_id, self.id),
             )
 
         if self.parent_handle:
             return urljoin(
                 BASE_FACEBOOK_URL,
-                "/%s/a.%s/%s" % (self.parent_handle, self.album_id, self.id),
+                "/%s/photos/a.%s/%s" % (self.parent_handle, self.album_id, self.id),
             )
 
-        return urljoin(BASE_FACEBOOK_URL, "/photo.php?fbid=%s" % self.id)
+        return urljoin(BASE_FACEBOOK_URL, "/photo.php?fbid=%s%s" % (self.id, album))
 
 
 def parse_facebook_url(url, allow_relative_urls=False):
